@@ -274,6 +274,94 @@ fn dist(c: &DistCase, cov: &mut Cov) -> CheckResult {
     }
 }
 
+// ---------------------------------------------------------------------------------------------
+// far tails: a generator that clips, resamples or truncates beyond a few sigma passes every
+// moment / KS test; the number of entries beyond 4..6 sigma in billions of draws does not
+// ---------------------------------------------------------------------------------------------
+
+#[derive(Debug, Clone, Serialize, Deserialize)]
+pub struct TailCase {
+    pub seed: u64,
+    /// number of init_with_seed(256, 256, .) calls (65 536 entries each)
+    pub calls: u64,
+    pub f32: bool,
+}
+
+fn tail_strategy(calls: u64) -> BoxedStrategy<TailCase> {
+    bx((any::<u64>(), any::<bool>()).prop_map(move |(seed, f32)| TailCase { seed, calls, f32 }))
+}
+
+const TAIL_T: [f64; 5] = [4.0, 4.5, 5.0, 5.5, 6.0];
+/// P(|Z| > t) for the thresholds above
+const TAIL_P: [f64; 5] = [6.334248366623996e-5, 6.795346249460124e-6, 5.733031437583869e-7, 3.797912493177544e-8, 1.973175290075396e-9];
+
+fn tail_t<T: Fl>(c: &TailCase, cov: &mut Cov) -> CheckResult {
+    let workers = 16u64;
+    let counts: Vec<[u64; 5]> = std::thread::scope(|sc| {
+        let hs: Vec<_> = (0..workers)
+            .map(|w| {
+                sc.spawn(move || {
+                    let mut cnt = [0u64; 5];
+                    let mut k = w;
+                    while k < c.calls {
+                        let v: Vec<Vec<T>> = init_with_seed::<T>(256, 256, c.seed.wrapping_add(k.wrapping_mul(0x9E37_79B9_7F4A_7C15)));
+                        for row in &v {
+                            for x in row {
+                                let a = x.f().abs();
+                                if a > 4.0 {
+                                    for (i, t) in TAIL_T.iter().enumerate() {
+                                        if a > *t {
+                                            cnt[i] += 1;
+                                        }
+                                    }
+                                }
+                            }
+                        }
+                        k += workers;
+                    }
+                    cnt
+                })
+            })
+            .collect();
+        hs.into_iter().map(|h| h.join().unwrap()).collect()
+    });
+    let n = c.calls as f64 * 65536.0;
+    let mut tot = [0u64; 5];
+    for cn in &counts {
+        for i in 0..5 {
+            tot[i] += cn[i];
+        }
+    }
+    for i in 0..5 {
+        let exp = n * TAIL_P[i];
+        if exp < 12.0 {
+            continue;
+        }
+        let z = (tot[i] as f64 - exp) / exp.sqrt();
+        cov.track_max("tail_abs_z", z.abs());
+        ensure!(
+            z.abs() <= 6.5,
+            "init-distribution tails",
+            "{} of {n:.3e} entries have |z| > {} ; a standard normal gives {exp:.1} +- {:.1} (z = {z:.1})",
+            tot[i],
+            TAIL_T[i],
+            exp.sqrt()
+        );
+        cov.class(&format!("threshold-{}-tested", TAIL_T[i]));
+    }
+    cov.evals(c.calls);
+    cov.nontrivial(&(c.seed, c.f32));
+    Ok(())
+}
+
+fn tail(c: &TailCase, cov: &mut Cov) -> CheckResult {
+    if c.f32 {
+        tail_t::<f32>(c, cov)
+    } else {
+        tail_t::<f64>(c, cov)
+    }
+}
+
 pub fn run(ctx: &mut Ctx) {
     ctx.rule = "n, d in 0..256 (incl. 0), seeds from {0,1,42,random,u64::MAX-k}, f32/f64; non-trivial = n>=2 and d>=2; distribution cases pool >= 6 calls of >= 100x100 entries; distinct by (type, n, d, seed)".into();
     ctx.assume("distribution tests at |z| <= 6.5 / KS lambda <= 3.5 (p ~ 1e-10 each); the OS-seeded variant is tested at the same thresholds");
@@ -291,6 +379,18 @@ pub fn run(ctx: &mut Ctx) {
         strategy,
         check,
     );
+    // quick: 2 x 1.3e9 entries (thresholds up to 5.5 sigma have power); thorough: 2 x 2e10 (6 sigma)
+    let calls: u64 = if t == crate::engine::Tier::Quick { 20_000 } else { 300_000 };
+    ctx.set_case_timeout(1800.0);
+    ctx.section(
+        "tails",
+        "counts of entries beyond 4, 4.5, 5, 5.5 and 6 sigma in billions of seeded draws vs the normal tail probabilities (|z| <= 6.5 where the expected count is >= 12)",
+        2,
+        2,
+        move || tail_strategy(calls),
+        tail,
+    );
+    ctx.set_case_timeout(60.0);
     ctx.section(
         "distribution",
         "pooled entries: moments 1..4, lag-1 correlations within/between rows, KS distance to Phi",
